@@ -132,4 +132,98 @@ pub fn run(ctx: &mut Ctx) {
         }
     }
     ctx.mark_exhaustive("enum-field-sweep", "every code of navigation status, manoeuvre, position-fix device, ship type, aid type, sync state, DTE, accuracy, assigned mode, carrier-sense unit and static-data part in every layout carrying them x {zero, all-one, random} neighbours");
+    // synchronisation state: all 2^19 / 2^20 state values of every type that carries one, with the flags in
+    // front of the state clear, set and random (the sync code must map to its name whatever the rest says)
+    {
+        let type9_listed = ctx.findings.iter().any(|f| f.sig == crate::props::payload::SIG_TYPE9);
+        let mut jobs = Vec::new();
+        for &t in [1u8, 2, 3, 4, 9, 11, 18].iter() {
+            let total: u32 = if t == 9 || t == 18 { 1 << 20 } else { 1 << 19 };
+            for flags in [None, Some(0u64), Some(0x7f)] {
+                let mut lo = 0u32;
+                while lo < total {
+                    jobs.push((t, lo, lo + (1 << 17), flags));
+                    lo += 1 << 17;
+                }
+            }
+        }
+        let seed = ctx.seed;
+        let results = crate::util::par_map(jobs, move |(t, lo, hi, flags)| {
+            let mut mix = Mix::new(seed, 0xc12 + ((t as u64) << 32) + lo as u64);
+            let mut base = mix.bytes(21);
+            let mut n = 0u64;
+            let mut known = 0u64;
+            let mut bad: Option<Vec<u8>> = None;
+            for v in lo..hi {
+                if v & 0xfff == 0 {
+                    base = mix.bytes(21);
+                }
+                set_bits(&mut base, 0, 6, t as u64);
+                if let Some(fl) = flags {
+                    let (st, w) = match t { 18 => (141usize, 7usize), 9 => (142, 6), 1..=3 => (143, 6), _ => (148, 1) };
+                    set_bits(&mut base, st, w, fl & ((1 << w) - 1));
+                }
+                let sync = if t == 9 || t == 18 {
+                    set_bits(&mut base, 148, 20, v as u64);
+                    (v >> 17) & 3
+                } else {
+                    set_bits(&mut base, 149, 19, v as u64);
+                    (v >> 17) & 3
+                };
+                n += 1;
+                match crate::typed::decode_radio(&base) {
+                    Some(obs) if obs.1 as u32 == sync => {}
+                    Some(obs) if t == 9 && type9_listed && obs.1 as u64 == get_bits(&base, 148, 2) => known += 1,
+                    _ => {
+                        if bad.is_none() {
+                            bad = Some(base.clone());
+                        }
+                    }
+                }
+            }
+            (n, known, bad)
+        });
+        let sub = "sync-state-all-states";
+        let mut total = 0u64;
+        let mut known_total = 0u64;
+        for (n, known, bad) in results {
+            total += n;
+            known_total += known;
+            if let Some(bytes) = bad {
+                // re-judged through the generic comparison, which alone produces verdicts
+                ctx.sweep_case(sub, &crate::adapter::STD, &Input::Payload { bytes }, check);
+            }
+        }
+        if known_total > 0 {
+            if let Some(e) = ctx.known.get_mut(crate::props::payload::SIG_TYPE9) {
+                e.0 += known_total;
+            } else {
+                ctx.known.insert(crate::props::payload::SIG_TYPE9.to_string(), (known_total, "type 9 sync state read from bits 148..149 (typed sweep)".to_string()));
+            }
+        }
+        let st = ctx.subs.entry(sub.to_string()).or_default();
+        st.cases += total;
+        st.evals += total;
+        ctx.cases += total;
+        ctx.evals += total;
+        ctx.nontrivial_by_construction += total;
+        ctx.mark_exhaustive(sub, "all state values (with selector for types 9 and 18) of types 1, 2, 3, 4, 9, 11, 18 x flags in front of the state {random, all clear, all set}: the reported sync state equals the two bits at its position");
+    }
+    // every pair of fields at their special values (see gen::payload::pairwise_specials)
+    {
+        let mut mix = crate::util::Mix::new(ctx.seed, 0xa11);
+        let reps = ctx.tier.pick(1, 6);
+        for (t, len, part) in crate::gen::payload::pairwise_shapes() {
+            
+            crate::gen::payload::pairwise_specials(t, len, part, reps, &mut mix, |b| {
+                ctx.sweep_case("pairwise-special-values", &crate::adapter::STD, &Input::Payload { bytes: b }, check);
+            });
+        }
+        ctx.mark_exhaustive("pairwise-special-values", "every pair of fields of every layout (longest specified shape, and the shortest for the variable ones) x each field's special values (0, 1, max, max-1, 'not available' codes, MMSI station classes; all values of fields up to 3 bits), other bits random");
+    }
+    // decoding after an arbitrary history, in an unfragmented sentence or in a closing line without a group
+    {
+        let n_after = ctx.tier.pick(24_000, 300_000);
+        ctx.run_proptest("after-history", &crate::adapter::STD, n_after, crate::gen::payload::payload_inputs_after(SUPPORTED.to_vec(), Prop::C12), check);
+    }
 }
